@@ -22,6 +22,7 @@ func run(args []string) {
 	replay := fs.String("replay", "", "replay file")
 	only := fs.String("space", "AB", "spaces to run (A, B or AB)")
 	depth := fs.Int("depth", 0, "override the depth of space A")
+	fs.StringVar(&c03b.OnlyFamily, "bfam", "", "development aid: run only the space-B families whose name contains this")
 	fs.Parse(args)
 	if *replay != "" {
 		os.Exit(replayFile(*replay))
